@@ -117,7 +117,7 @@ QUICK_SHAPES = {
     'C14': ['o2m_opt', 'o2o_opt', 'm2m', 'o2m_req_casc'],
     'C15': ['o2m_req_casc', 'o2m_req_nocasc', 'o2o_req_casc', 'mix_req_nocasc', 'o2o_opt_childcasc'],
     'C16': ['o2m_req_casc', 'o2m_opt', 'o2o_req', 'm2m'],
-    'C23': ['o2m_opt', 'o2o_opt', 'm2m'],
+    'C23': ['o2m_opt', 'o2o_opt', 'm2m', 'mix_opt'],
 }
 
 
@@ -154,8 +154,12 @@ def run(ctx, prop, shapes=None, strategies=('default',), focus=None):
             nontrivial[k] = nontrivial.get(k, 0) + v
         for category, what, trace in r['found']:
             owner = session.CATEGORIES.get(category)
-            if prop == 'C23' and category in ('read', 'ends', 'identity', 'commit', 'failure') and r['strategy'] != 'default':
-                owner = 'C23'    # the same behaviour, replayed under a non-default loading strategy, must observe the same data
+            how = trace[0].get('probe') if trace and isinstance(trace[0], dict) else None
+            if prop == 'C23' and category in ('read', 'ends', 'identity', 'commit', 'failure') and \
+                    (r['strategy'] != 'default' or how in ('seed', 'prime')):
+                # the same behaviour, replayed under a non-default loading strategy - or on objects obtained as bare
+                # references / with everything loaded beforehand - must observe the same data
+                owner = 'C23'
             if category == 'crash':
                 owner = prop     # an unexpected exception inside pony concerns every property of the session model
             if owner == prop:
